@@ -163,7 +163,7 @@ class C13(Prop):
         for e in set(ep):
             if ep.count(e) > limit:
                 fails.append('worker #%d served %d replays, the recycle rate is %d' % (e, ep.count(e), case['rate']))
-        for pos in range(len(ep) - 1):
+        for pos in range(min(len(ep), len(ids)) - 1):       # (more replays than recordings is reported above)
             if beh[ids[pos]]['k'] in FAULTY and ep[pos + 1] in ep[:pos + 1]:
                 fails.append('after the %s at position %d the next replay ran on a worker used before (#%d)'
                              % (beh[ids[pos]]['k'], pos, ep[pos + 1]))
